@@ -55,6 +55,7 @@ type Contract struct {
 	Requires  []*Clause
 	Ensures   []*Clause
 	Assumes   []*Clause
+	Captures  []*Clause
 	Modifies  []*SExpr
 	HasMod    bool
 	Decreases *Clause
@@ -114,6 +115,7 @@ type ContractSet struct {
 	Defines map[string]*Define
 	Axioms  []*Axiom
 	PurePkgs []string
+	NonNilPkgs []string
 	Files   []string
 	Errors  []string
 }
@@ -122,9 +124,9 @@ func NewContractSet() *ContractSet {
 	return &ContractSet{ImmFields: map[string]*ImmField{}, TypeInvs: map[string]*TypeInv{}, ByName: map[string]*Contract{}, Ghosts: map[string]*GhostVar{}, Specs: map[string]*SpecFunc{}, Defines: map[string]*Define{}}
 }
 
-var reFuncHdr = regexp.MustCompile(`^func\s+(?:\(([^)]*)\)\s*)?([A-Za-z_$][\w$.]*)`)
+var reFuncHdr = regexp.MustCompile(`^func\s+(?:\(([^)]*)\)\s*)?([A-Za-z_$][\w$.\[\],]*)`)
 var rePropLabel = regexp.MustCompile(`^\s*((?:C\d+,?)+/)?([A-Za-z_][\w\-.]*)\s*:\s+`)
-var keywords = []string{"immutable", "assumes", "typeinv", "purepkg", "noreturn", "func", "iface", "props", "requires", "ensures", "modifies", "decreases", "may_panic", "no_panic", "pure", "trusted", "opaque", "inline", "loop", "ghost", "spec", "define", "axiom", "package"}
+var keywords = []string{"captures", "nonnilpkg", "immutable", "assumes", "typeinv", "purepkg", "noreturn", "func", "iface", "props", "requires", "ensures", "modifies", "decreases", "may_panic", "no_panic", "pure", "trusted", "opaque", "inline", "loop", "ghost", "spec", "define", "axiom", "package"}
 
 func startsWithKeyword(s string) string {
 	for _, k := range keywords {
@@ -245,6 +247,8 @@ func (cs *ContractSet) LoadFile(path, pkg string, trusted bool) {
 				pkg = rest
 			}
 			cur = nil
+		case "nonnilpkg":
+			cs.NonNilPkgs = append(cs.NonNilPkgs, rest)
 		case "purepkg":
 			cs.PurePkgs = append(cs.PurePkgs, rest)
 		case "immutable":
@@ -378,6 +382,12 @@ func (cs *ContractSet) LoadFile(path, pkg string, trusted bool) {
 			case "ensures":
 				if c := parseClause(rest, l.line); c != nil {
 					cur.Ensures = append(cur.Ensures, c)
+				}
+			case "captures":
+				// closures only: a fact about the captured variables, proved where the closure is
+				// created and assumed when its body runs (what it mentions must not change in between)
+				if c := parseClause(rest, l.line); c != nil {
+					cur.Captures = append(cur.Captures, c)
 				}
 			case "assumes":
 				// a postcondition handed to callers WITHOUT being checked against the body (listed as an assumption)
